@@ -5,6 +5,17 @@ import "verif/harness/core"
 var registry = map[string]func() *core.Check{
 	"C01": c01,
 	"C02": c02,
+	"C03": c03,
+	"C04": c04,
+	"C08": c08,
+	"C09": c09,
+	"C12": c12,
+	"C13": c13,
+	"C15": c15,
+	"C16": c16,
+	"C17": c17,
+	"C18": c18,
+	"C20": c20,
 }
 
 // Lookup returns the check for a property id, or nil.
